@@ -193,6 +193,21 @@ CLAIMED = {
    note="Trusted: Coq kernel; set-level index model hand-written; join order / push-down / costing only through variant pairs.",
    technique="Coq proof (index scan = table scan under an agreement invariant preserved by DML; refutation for key updates) + plan-variant differential correspondence",
    design="7 (C06)"),
+ "C16": dict(
+   text="Props/C16.v: with the binding powers regenerated from the parser source, the expression parser terminates on every token "
+        "sequence - fuel 2*tokens+2 is never exhausted, so every rejection is a genuine one and the running time is linear in the "
+        "input (C16_parser_terminates, via a mirror that separates 'out of fuel' from 'rejected' and is proved to erase to the "
+        "model); the reference is total and a statement answered with an error changes neither the committed state nor any session "
+        "(C16_reference_total).  On every run garbage, token soups, truncated / mutated / deeply nested statements and 60 "
+        "well-formed statements that must fail are executed in autocommit and inside sessions under a watchdog; no statement may "
+        "panic, hang or kill the process, an error must leave the tables unchanged, and the database must keep accepting "
+        "statements.  Four defects found this way were fixed (division by zero and negation overflow, process abort on deep "
+        "nesting, unreachable!/todo! in the evaluator for sub-queries and misplaced aggregates); integer overflow panics remain as "
+        "a known finding.",
+   note="Trusted: Coq kernel; translator for the binding-power table; the statement parser, lexer, binder and executor are covered "
+        "by the fuzz stream only; hang = no answer within the harness watchdog.",
+   technique="Coq termination proof for the Pratt parser on the regenerated table + fuzz correspondence with no-panic / no-hang / no-effect-on-error oracles",
+   design="7 (C16)"),
 }
 NOT_YET = "not claimed yet: model and proofs under construction in this session (see DESIGN.md section 10, build order)"
 
